@@ -144,7 +144,7 @@ def fresh_dim(ctx, name):
 
 SCALAR_CASES = ["none", "bool", "int", "float", "str", "path", "npint", "npfloat", "npbool"]
 ARRAY_CASES = ["ndarray0", "ndarray1", "ndarray2", "ndarray3"]
-TORCH_CASES = ["tensor", "parameter", "module"]
+TORCH_CASES = ["tensor", "tensor_grad", "tensor_nonleaf", "parameter", "module"]
 EXTRA_CASES = ["optimizer", "scheduler", "other"]  # outside the property's list of kinds: checked at attribute position only
 KINDONLY_CASES = ["pylogger", "tlogger", "rng:PCG64", "rng:MT19937", "rng:Philox", "rng:SFC64"]
 LEAF_CASES = SCALAR_CASES + ARRAY_CASES + TORCH_CASES + KINDONLY_CASES
@@ -175,7 +175,13 @@ def mk_leaf(ctx, case, tag="v"):
         nd = int(case[7:])
         shape = tuple(fresh_dim(ctx, f"{tag}_d{j}") for j in range(nd))
         return cm.mk_ndarray(DType(), shape, cm.fresh_tok("data"))
-    if case in ("tensor", "parameter", "module", "optimizer", "scheduler", "other"):
+    if case in ("tensor", "tensor_grad", "tensor_nonleaf"):
+        # plain tensor / leaf with requires_grad / NON-LEAF with requires_grad (grad_fn is not None, e.g. w*3+1)
+        rg, leaf = case != "tensor", case != "tensor_nonleaf"
+        return Kind("tensor", rep=cm.tensor_rep(rg, leaf), tok=cm.fresh_tok(case), rg=rg, leaf=leaf)
+    if case == "parameter":
+        return cm.mk_kind(case, tok=cm.fresh_tok(case), rg=True, leaf=True)
+    if case in ("module", "optimizer", "scheduler", "other"):
         return cm.mk_kind(case, tok=cm.fresh_tok(case))
     if case in KINDONLY_CASES:
         return cm.mk_kind(case)
@@ -403,7 +409,11 @@ def equiv(l, o, exp, pre=""):
             return out
         if k in ("tensor", "parameter", "module", "optimizer", "scheduler", "other"):
             # torch.save/torch.load (dill) give back an object with the same state: dtype, requires_grad, values, class (A6)
-            add("same-pickled-object", isinstance(l, Kind) and l.kind == k and l.payload.get("tok") == o.payload.get("tok"))
+            same = isinstance(l, Kind) and l.kind == k and l.payload.get("tok") == o.payload.get("tok")
+            add("same-pickled-object", same)
+            if same and k in ("tensor", "parameter"):
+                # the property: "tensor dtype and requires_grad are preserved" (leaf-ness / grad_fn is not claimed)
+                add("requires_grad", l.payload.get("rg") == o.payload.get("rg"))
             return out
         if k in ("pylogger", "tlogger") or k.startswith("rng:"):
             add("same-kind-of-object", same_kind_of_object(l, o))
@@ -756,6 +766,9 @@ def container_cases():
     out.append(("list", ("str",) * 11))
     out.append(("tuple", ("none", "str", "int", "path") * 3))
     out.append(("list", ("int",) * 11))
+    for ct in ("list", "tuple", "dict"):
+        out.append((ct, ("tensor_nonleaf", "str")))
+        out.append((ct, ("int", "tensor_grad", "tensor_nonleaf")))
     return out
 
 
